@@ -12,7 +12,11 @@ import (
 
 // Propose submits a real governance proposal (messages carry the gov authority).
 func Propose(c *chain.Chain, proposer chain.Key, msgs []sdk.Msg, deposit sdk.Coins, title string) (uint64, chain.Result) {
-	m, err := govv1.NewMsgSubmitProposal(msgs, deposit, proposer.Bech32(), "", title, title+" summary", false)
+	return ProposeExpedited(c, proposer, msgs, deposit, title, false)
+}
+
+func ProposeExpedited(c *chain.Chain, proposer chain.Key, msgs []sdk.Msg, deposit sdk.Coins, title string, expedited bool) (uint64, chain.Result) {
+	m, err := govv1.NewMsgSubmitProposal(msgs, deposit, proposer.Bech32(), "", title, title+" summary", expedited)
 	if err != nil {
 		return 0, chain.Result{Err: err}
 	}
